@@ -68,7 +68,8 @@ def alter_column(
     if type_:
         t = operations.schema_obj.table(
             table_name,
-            operations.schema_obj.column(column_name, type_),
+            # the column has been renamed by now, if a new name was given
+            operations.schema_obj.column(new_column_name or column_name, type_),
             schema=schema,
         )
         for constraint in t.constraints:
